@@ -67,6 +67,37 @@ func CheckRecRules(r *verifsim.Run, t *Trace, p RecParams) {
 	}
 	ix := indexTrace(t)
 
+	// ---- what the processor announces to its listener: a start exactly where the sink accepted one,
+	// an end exactly where the recording was ended (whatever the sink answered to the stop call)
+	for i := range t.Ev {
+		e := &t.Ev[i]
+		startOK, stop := false, false
+		for _, c := range e.Calls[SinkMotion] {
+			switch c.Op {
+			case 'S':
+				startOK = startOK || !c.Err
+			case 'X':
+				stop = true
+			}
+		}
+		if e.Started != startOK {
+			sig := "start-not-announced"
+			if e.Started {
+				sig = "announced-without-start"
+			}
+			r.Violate("C04", "C04.announce", sig, "event %d: RecordingStarted announced=%v, the motion sink accepted a start during this event=%v; calls: %s", i, e.Started, startOK, t.CallString(SinkMotion, i, i+1))
+			return
+		}
+		if e.Ended != stop {
+			sig := "end-not-announced"
+			if e.Ended {
+				sig = "announced-without-end"
+			}
+			r.Violate("C03", "C03.announce", sig, "event %d: RecordingEnded announced=%v, the recording was ended during this event=%v; calls: %s", i, e.Ended, stop, t.CallString(SinkMotion, i, i+1))
+			return
+		}
+	}
+
 	// ---- C01 / C02 ---------------------------------------------------------
 	seen := map[int]int{} // id -> recording index
 	lastOrd := -1         // last ordinal written by the previous recording
